@@ -2,7 +2,8 @@
 C02 — node trees are faithful, strictly document-ordered images of the input XML.
 
  prove     : EPV.Props.C02 (positions strictly increasing / consecutive, faithful image of the XDM tree,
-             string values, operator layer) about the model EPV/Model/Builder.lean
+             parents, string values, explicit-stack loop = recursion, operator layer) about the models
+             EPV/Model/Builder.lean and EPV/Model/BuilderLoop.lean
  correspond: generated trees (xml.etree and lxml; Element / ElementTree / lxml sub-element; fragment in
              {None, True, False}; four kinds of `namespaces` argument; lxml prolog/epilog comments and PIs)
              -> real get_node_tree / build_node_tree / build_lxml_node_tree  vs  Lean model (dump with
@@ -578,6 +579,12 @@ def correspond(run: Run) -> None:
         'distinct = distinct request lines with more than one node')
     for k in range(0, len(cases), 1500):
         compare(run, cases[k:k + 1500])
+    if not run.quick:
+        # thorough tier: the exhaustive small-scope enumeration is part of the correspondence
+        small = search_cases(5)
+        run.stats.count('exhaustive-small-trees', len(small))
+        for k in range(0, len(small), 3000):
+            compare(run, small[k:k + 3000], nops=3)
 
 
 # ------------------------------------------------------------------------------------------
@@ -727,14 +734,15 @@ def body(run: Run) -> int:
     run.trusted_base += [
         'xml.etree.ElementTree and lxml.etree as tree containers (tag/attrib/text/tail/children, lxml nsmap '
         'inheritance and document-level siblings are read back from the library objects)',
-        'the recursive formulation of the builders: the explicit iterators/ancestors stacks of the Python '
-        'loops are tied to it by the correspondence only',
+        'EPV/Model/Builder.lean (recursive) and EPV/Model/BuilderLoop.lean (explicit iterators/ancestors stacks, '
+        'proved equal to the recursive form by loop_eq_build) are hand transcriptions of tree_builders.py / '
+        'xpath_nodes.py; that they mirror the Python is what the correspondence checks on every run',
         'CPython sorted() is a stable sort; set iteration order is arbitrary (theorems quantify over it)']
     run.assumptions += [
         'no schema is bound to the tree (schema-defaulted attributes belong to C20)',
         'the wrapped etree is not mutated between building the node tree and reading it',
         'dict keys are unique (NsWF) for the exact-gap / faithful-image theorems; the strict-order theorem needs nothing']
-    run.prove(['EPV.Props.C02'], ['EPV.Spec.XDMTree', 'EPV.Model.Builder'])
+    run.prove(['EPV.Props.C02'], ['EPV.Spec.XDMTree', 'EPV.Model.Builder', 'EPV.Model.BuilderLoop', 'EPV.Proto'])
     try:
         if run.replay:
             payload = json.loads(Path(run.replay).read_text())
